@@ -285,7 +285,10 @@ impl Multiboot2BasicHeader {
     /// Calculates the checksum as described in the spec.
     #[must_use]
     pub const fn calc_checksum(magic: u32, arch: HeaderTagISA, length: u32) -> u32 {
-        (0x100000000 - magic as u64 - arch as u64 - length as u64) as u32
+        0_u32
+            .wrapping_sub(magic)
+            .wrapping_sub(arch as u32)
+            .wrapping_sub(length)
     }
 
     /// Returns the header magic.
